@@ -21,7 +21,33 @@ from vf.core import Part
 PROPERTY = "C22"
 LEVEL = "exploration"
 
-SKIP_FILES = ()
+# the documentation sentence a failed rule contradicts (developer guide
+# doc/developer_guide/APIs.rst unless stated otherwise)
+DOC = {
+    "read": "Halo Exchange Logic 3): 'continuous fields that are read from "
+            "within loops that iterate over cells and modify a discontinuous "
+            "field will access their annexed dofs ... a halo exchange will "
+            "be required'; 1): 'any field that is read within such a loop "
+            "must have its level-1 halo clean'; Dof iterators case 4)",
+    "stencil": "Halo Exchange Logic 4): 'fields that have a stencil access "
+               "will access the halo and need halo exchange calls added'",
+    "inc": "Cell iterators: Continuous: 'a loop iterating to the level-n "
+           "halo will result in a halo exchange to the level-(n-1) halo "
+           "being added before the loop'; Halo Exchange Logic 1): 'A "
+           "modified field (GH_INC) will require a halo exchange if its "
+           "annexed dofs are not clean'",
+    "readinc": "Cell iterators: Continuous: 'This is also the case for a "
+               "modified field with GH_READINC access as readinc captures a "
+               "kernel field whose data is read (into the level-1 halo) and "
+               "then incremented'",
+    "dofread": "Dof iterators: loops to the last annexed / halo DoF read "
+               "those DoFs",
+    "write": "Cell iterators: Continuous: 'the outermost halo of the "
+             "modified field is dirty after redundant computation'; "
+             "Discontinuous: only the cells iterated over are computed",
+    "async": "Asynchronous Halo Exchanges: start and end 'can then be moved "
+             "... as long as data dependencies are honoured'",
+}
 
 
 def alg_files():
@@ -96,9 +122,11 @@ def check_text(part, text, facts_by_invoke, annexed, label, hist_strs,
                 "source": label, "invoke": name, "annexed": annexed,
                 "history": hist_strs,
                 "psy_lines": excerpt(lines, f["event_line"]),
+                "documentation": DOC.get(str(f["mechanism"]).split(":")[0]),
                 "dedupe": (f["kind"], f["mechanism"])})
             if replay:
                 w["replay"] = replay
+            part.count("fault:" + str(f["mechanism"]))
             part.violation(w)
     return done
 
@@ -316,8 +344,8 @@ def main(ctx):
     nrest = 8 if ctx.quick else len(rest)
     chosen = must + rest[:nrest]
     selftest = bool(os.environ.get("VF_C22_SELFTEST"))
-    ngen = 3 if ctx.quick else 24
-    nh = 4 if ctx.quick else 10
+    ngen = 3 if ctx.quick else 12
+    nh = 4 if ctx.quick else 6
     nchunks = 16 if ctx.quick else 32
     jobs = []
     for annexed in (False, True):
@@ -384,5 +412,14 @@ def main(ctx):
         "know (inter-grid kernels, several kernels in one loop, user DoF "
         "kernels) are counted under invokes_skipped_unparsed and not judged",
         "operators carry no halo state (limited to depth 1 by design)",
+        "WEAKENED: reads by a kernel whose updated arguments all have "
+        "GH_WRITE access and include a continuous/any_space field do not "
+        "need clean annexed DoFs over owned cells (guide 'Halo Exchange "
+        "Logic' case 2 is ambiguous about the READ arguments and the "
+        "repository test test_write_cont_dirty asserts no exchange)",
+        "the mesh halo depth is at least every literal depth in the code and "
+        "every depth the redundant-computation history asked for; a refused "
+        "transformation is followed by rebuilding the schedule from the "
+        "accepted steps (a refusal that leaves the schedule changed is C26)",
         "a halo exchange placed inside a loop over colours is executed once "
         "before the cell loop (counted: halo_exchange_inside_colours_loop)"]
